@@ -8,7 +8,7 @@ from project import cfg_proj
 MODULE = "TraceGrammar"
 FAMILIES = [("Sat3", "any"), ("Sat3", "any"), ("Bool", "any"), ("Rat", "nocycle"), ("Rat", "acyclic"),
             ("MaxTimes", "nocycle"), ("Sat2", "any"), ("RatU", "acyclic"), ("Sat3", "twocycles"), ("Bool", "twocycles"),
-            ("Rat", "signed"), ("Log", "acyclic")]        # signed real weights: partial sums that cancel to exactly zero
+            ("Rat", "signed"), ("Log", "acyclic"), ("Sat3", "chord"), ("Bool", "chord")]        # signed real weights: partial sums that cancel to exactly zero
 SINGLE = ["trim", "cotrim", "binarize", "separate_start", "separate_terminals", "nullaryremove", "unaryremove",
           "unarycycleremove", "cnf", "renumber", "rename", "rename_int", "text", "unfold", "getitem_start"]
 POSTS = {"cnf", "nonullary", "nounary", "nounarycycle", "arity2", "startoff", "preterminal", "trimmed", "cotrimmed", "nozero"}
